@@ -10,7 +10,7 @@ use proptest::prelude::*;
 use serde::{Deserialize, Serialize};
 use std::str::FromStr;
 
-pub const RULE: &str = "generated formats of 1-16 non-optional tokens from {%Y %m %d %H %M %S %f %j %A %a %B %b %T %z} in any order with 0-2 printable-ASCII separators (not % or ?) after each token but the last, built with Format::from_str; x generated epochs with year 0001-9999 in nine scales (every time-of-day class) x time-zone offsets -23:59..+23:59 through Formatter::with_timezone; the nine predefined constants (only formats with optional tokens) enumerated against their documented strings; oracle = model rendering token by token from civil-from-days of the (offset-shifted) count in the epoch's own scale, string equality; parse-back for UTC epochs on the sub-family stated in ASSUMPTIONS; non-trivial = >= 4 tokens, a name token, an offset != 0, scale != UTC, two separators, or time of day within 1 us of midnight; distinct = distinct case tuples (hash set, capped: lower bound)";
+pub const RULE: &str = "generated formats of 1-16 non-optional tokens from {%Y %m %d %H %M %S %f %j %A %a %B %b %T %z} in any order with 0-2 separators (printable ASCII other than % and ?, one in ten a character of two to four bytes) after each token but the last, built with Format::from_str; x generated epochs with year 0001-9999 in nine scales (every time-of-day class) x time-zone offsets -23:59..+23:59 through Formatter::with_timezone; the nine predefined constants (only formats with optional tokens) enumerated against their documented strings; oracle = model rendering token by token from civil-from-days of the (offset-shifted) count in the epoch's own scale, string equality; parse-back for UTC epochs on the sub-family stated in ASSUMPTIONS; non-trivial = >= 4 tokens, a name token, an offset != 0, scale != UTC, two separators, or time of day within 1 us of midnight; distinct = distinct case tuples (hash set, capped: lower bound)";
 
 pub const ASSUMPTIONS: &[&str] = &[
     "weekday and day of year are those of the printed Gregorian date (the epoch's own time scale, after the offset shift)",
@@ -38,7 +38,9 @@ fn sep_strategy(parseable: bool) -> BS<String> {
         .filter(|c| *c != '%' && *c != '?')
         .filter(|c| !parseable || (!c.is_ascii_alphanumeric() && *c != '+' && *c != '-' && *c != '.'))
         .collect();
-    let one = prop::sample::select(chars);
+    // separators are `char`s: characters of two, three and four bytes are separators like any other
+    let wide: Vec<char> = vec!['\u{b7}', '\u{e9}', '\u{2013}', '\u{2032}', '\u{20ac}', '\u{65e5}', '\u{3000}', '\u{1f600}', '\u{a0}', '\u{7ff}', '\u{800}', '\u{ffff}', '\u{10000}'];
+    let one = prop_oneof![9 => prop::sample::select(chars), 1 => prop::sample::select(wide)];
     if parseable {
         prop_oneof![3 => one.clone().prop_map(|c| c.to_string()), 1 => (one.clone(), one).prop_map(|(a, b)| format!("{a}{b}"))].boxed()
     } else {
